@@ -1,6 +1,20 @@
 (* Proofs_LRSound.v — the generated LR(1) parser (LR.v) against derivation trees (SpecLR.v).
    Statements: LRStatements.v (C13_sound_stmt, C13_driver_safe_stmt, C13_generate_total_stmt).
-   Helpers: Proofs_LRSound0.v (which also defines the extra hypotheses `rhs_closed`, `eof_fresh`). *)
+   Helpers: Proofs_LRSound0.v, which also defines the two extra hypotheses
+     rhs_closed g      : every Nt in a right-hand side of g has index < total_nt g
+     eof_fresh g eof   : ~ mentioned g eof
+
+   Findings: all three statements are FALSE as written (refuted below by concrete grammars):
+     C13_sound_stmt_false, C13_driver_safe_stmt_false, C13_generate_total_stmt_false.
+   wf_grammar/start_ok bound only the KEYS of right_sides; a right-hand side may mention
+   Nt (total_nt g) or Nt (total_nt g + 1), which `elements` then uses for its own S' and E
+   (S -> E parses "eof" although S derives nothing in g), or an index without a jump-table row
+   (zupd out of range: UB).  The driver additionally runs off the input when g itself contains
+   the end marker (S -> eof S | a on the input [eof]).
+   Proved instead, same conclusions:
+     C13_sound_partial           (+ rhs_closed g; any conflict list, not only [])
+     C13_driver_safe_partial     (+ rhs_closed g, eof_fresh g eof; any conflict list)
+     C13_generate_total_partial  (+ rhs_closed g) *)
 From Coq Require Import List ZArith NArith Lia Bool Sorting.Sorted.
 From Theo Require Import Base Grammar LR SpecMacro SpecLR LRStatements Proofs_First.
 From Theo Require Import Proofs_LRSound0.
